@@ -3,6 +3,7 @@
 package cose
 
 func init() {
+	vRegister("H_C09_hashenv", H_C09_hashenv)
 	vRegister("H_C09_sign1", H_C09_sign1)
 	vRegister("H_C09_sign", H_C09_sign)
 	vRegister("H_C09_signature", H_C09_signature)
@@ -281,5 +282,47 @@ func H_C09_canonical_fixpoint() {
 		return
 	}
 	vAssert("fixpoint: decode + encode of the canonical form changes nothing", vRopeEq(b1, b2))
+	vReach("end")
+}
+
+// the message VerifyHashEnvelope hands back is a decoded message like any other: re-encoding it
+// reproduces the received header buckets byte for byte (any key order, any head widths)
+func H_C09_hashenv() {
+	alg := nnInt(1, 6, vWidth("algw", 6))   // ES256
+	halg := nnInt(1, 15, vWidth("halgw", 15)) // SHA-256
+	k1 := nnInt(0, 1, vWidth("k1w", 1))
+	k258 := nnInt(0, 258, vWidth("k258w", 258))
+	pairs := []*vNodeT{k1, alg, k258, halg}
+	if vChoose("order", 2) == 1 { // the sender's key order
+		pairs = []*vNodeT{k258, halg, k1, alg}
+	}
+	if vChoose("loc", 2) == 1 {
+		s := vStr("locs", 3)
+		vAssume(vUTF8(s))
+		vAssume(len(s) > 0)
+		pairs = append(pairs, nnInt(0, 260, vWidth("k260w", 260)), nnTstr(s, vWidth("locw", uint64(len(s)))))
+	}
+	content := vSer(nnMap(pairs, vWidth("pmw", uint64(len(pairs)/2))))
+	p := nnBstr(content, vWidth("pbw", uint64(len(content))))
+	_, u := mkLayer("m.u", 6, mkFaultPlan(0), 0)
+	hash := vBlobN("hash", 32, 32)
+	sig := vBlobN("sig", 1, 100)
+	wire := vSer(nnTag(18, nnArray([]*vNodeT{p, u, nnBstr(hash, vWidth("hw", 32)), nnBstr(sig, vWidth("sw", uint64(len(sig))))}, 0), 0))
+	m, err := VerifyHashEnvelope(&spyVerifier{alg: AlgorithmES256}, wire)
+	vAssume(err == nil)
+	out, merr := m.MarshalCBOR()
+	vAssert("hashenv: the verified envelope re-encodes", merr == nil)
+	if merr != nil {
+		return
+	}
+	w := vParse(out)
+	ok := w != nil && nMajor(w) == 6 && nMajor(nChild(w, 0)) == 4 && nLen(nChild(w, 0)) == 4
+	vAssert("hashenv: output is tag + 4-array", ok)
+	if !ok {
+		return
+	}
+	body := nChild(w, 0)
+	vAssert("hashenv: protected bucket reproduced byte-for-byte", vRopeEq(nRaw(nChild(body, 0)), nRaw(p)))
+	vAssert("hashenv: unprotected bucket reproduced byte-for-byte", vRopeEq(nRaw(nChild(body, 1)), nRaw(u)))
 	vReach("end")
 }
